@@ -546,10 +546,13 @@ class C19(Spec):
             cfg = sample_cfg(rng, tier, m_min=3, t_min=1, m_max=5)
             td = rng.choice(({'s': 8, 'e': 8}, {'s': 10, 'e': 6}))
             R = rng.sample(range(cfg.m), rng.randint(1, cfg.m - 1))
+            nf = rng.choice((1, 1, 2, 3))        # one float, or a list of floats in one output
+            ins = [['input', f'x{i + 1}', [], {'value': fltfam.rand_float(rng, td) or 1.5, 'sender': rng.randrange(cfg.m), 'dummy': 1.5}]
+                   for i in range(nf)]
             prog = {'family': 'flt', 'type': td, 'receivers': None, 'outputs': [], 'tags': [],
-                    'stmts': [['input', 'x1', [], {'value': fltfam.rand_float(rng, td) or 1.5, 'sender': rng.randrange(cfg.m), 'dummy': 1.5}],
-                              ['quiesce', None, [], {'T': 10}], ['output_now', 'y1', ['x1'], {'receivers': R}],
-                              ['quiesce', None, [], {'T': 20}]]}
+                    'stmts': ins + [['quiesce', None, [], {'T': 10}],
+                                    ['output_now', 'y1', [f'x{i + 1}' for i in range(nf)], {'receivers': R}],
+                                    ['quiesce', None, [], {'T': 20}]]}
             return {'family': 'flt', 'cfg': cfg.to_json(), 'prog': prog, 'seed': seed, 'flt_window': R}
         cfg = sample_cfg(rng, tier, m_min=2)
         prog = iofam.gen_window(rng, cfg, tier)
